@@ -268,6 +268,31 @@ def omp_loops():
     return out
 
 
+def mmc_critical():
+    """every access to the shared block cache in mmc.c (the array, its alias `mm`, the static cursor `j`) with the flag
+    "lies textually inside a `#pragma omp critical(mmc) { … }` region".  C14's invariants hold for every SEQUENCE of
+    cache operations; they carry over to the OpenMP build only if the operations are atomic."""
+    raw = open(os.path.join(REPO, 'm4ri', 'mmc.c')).read()
+    text = re.sub(r'/\*.*?\*/', lambda m: re.sub(r'[^\n]', ' ', m.group(0)), raw, flags=re.S)
+    text = re.sub(r'//[^\n]*', '', text)
+    regions = []
+    for m in re.finditer(r'^[ \t]*#[ \t]*pragma[ \t]+omp[ \t]+critical[ \t]*\([ \t]*mmc[ \t]*\)[^\n]*\n', text, re.M):
+        ob = text.index('{', m.end())
+        if text[m.end():ob].strip():
+            raise TranslateError('mmc.c: critical(mmc) not followed by a block')
+        regions.append((ob, matching_brace(text, ob)))
+    out = []
+    for m in re.finditer(r'\bm4ri_mmc_cache\b|\bmm\s*\[|\bj\b\s*(?:=(?!=)|\))', text):
+        line = text.count('\n', 0, m.start()) + 1
+        ctx = text[text.rfind('\n', 0, m.start()) + 1:text.find('\n', m.start())].strip()
+        if re.match(r'mmb_t\s+m4ri_mmc_cache\s*\[', ctx):
+            continue        # the definition of the array
+        out.append((line, any(a < m.start() < b for a, b in regions)))
+    if not out:
+        raise TranslateError('mmc.c: no access to the block cache found')
+    return out
+
+
 def lean_str(s):
     return '"' + s.replace('\\', '\\\\').replace('"', '\\"') + '"'
 
@@ -322,6 +347,7 @@ def regenerate():
     inv = alloc_inventory()
     omp = omp_inventory()
     loops = omp_loops()
+    mmc = mmc_critical()
     L = []
     L.append('/- GENERATED by vlib/translate.py from /repo/m4ri on every check. Do not edit. -/')
     L.append('set_option linter.unusedVariables false')
@@ -351,11 +377,13 @@ def regenerate():
     I.append(',\n'.join('  (%s, %d, %s, [%s], [%s])' % (lean_str(f), ln, lean_str(v), ', '.join(map(lean_str, p)), ', '.join(map(lean_str, w)))
                         for f, ln, v, p, w in loops))
     I.append(']')
+    I.append('/-- accesses to the shared block cache in mmc.c: (line, inside `omp critical(mmc)`) -/')
+    I.append('def mmcAccesses : List (Nat × Bool) := [' + ', '.join('(%d, %s)' % (l, 'true' if c else 'false') for l, c in mmc) + ']')
     I.append('end M4ri.Gen')
     changed = write_if_changed(os.path.join(GEN, 'Params.lean'), '\n'.join(L) + '\n')
     changed = write_if_changed(os.path.join(GEN, 'Inventory.lean'), '\n'.join(I) + '\n') or changed
     return dict(changed=changed, constants=consts, formulas=forms, alloc_sites=len(inv),
-                unchecked_sites=[s for s in inv if s[3] == 'unchecked'], omp_pragmas=len(omp), omp_loops=['%s:%d var=%s private=%s outer-written=%s' % l for l in loops], obligations=0)
+                unchecked_sites=[s for s in inv if s[3] == 'unchecked'], omp_pragmas=len(omp), mmc_accesses=len(mmc), mmc_unprotected=[l for l, c in mmc if not c], omp_loops=['%s:%d var=%s private=%s outer-written=%s' % l for l in loops], obligations=0)
 
 
 if __name__ == '__main__':
